@@ -465,6 +465,43 @@ async def execute(net, hyg, plan):
                 if r4 in (None, "EOF") or r4.code != "257":
                     viol.append({"key": "session-lost-after-425", "msg": f"{where}: PWD -> {r4}"})
             s.peer.cut("fin")
+        elif kind == "two_transfers_one_data":
+            # two transfer commands written in one piece, ONE data connection made afterwards: the first transfer takes it, the
+            # second one's data connection is never made - answered 425 within its bound, and the session goes on
+            s = Session(net, 2121)
+            await s.run([["connect"], ["login"], ["cmd", "TYPE I"], [plan.get("pcmd", "epsv")]])
+            s.peer.writer.write(("\r\n".join(plan["pair"]) + "\r\n").encode())
+            await asyncio.sleep(plan["gap"])
+            t_conn = loop.time()
+            dr, dw = await s.peer.open_data(s.pasv_port)
+            if plan["pair"][0].startswith(("STOR", "APPE")):
+                dw.write(b"q" * 3000)
+                dw.close()
+            else:
+                await s.peer.read_data(dr, wait=10)
+                dw.close()
+            replies = []
+            for _ in range(4):
+                r = await s.peer.read_reply(wait=cfg["wft"] * 2 + 5)
+                replies.append(r)
+                if r in (None, "EOF"):
+                    break
+            mon["wait_future_425"] += 1
+            fired = True
+            codes = [r.code if r not in (None, "EOF") else str(r) for r in replies]
+            where = f"cfg {cfg}: {plan['pair']} in one write, one data connection {plan['gap']}s later"
+            if sorted(codes) != sorted(["150", "150", "425", "226" if not plan["pair"][0].startswith("MLSD") else "200"]):
+                viol.append({"key": "second-transfer-without-data-connection-not-answered-425" if "EOF" in codes or "None" in codes
+                             else "two-transfers-wrong-replies", "msg": f"{where}: replies {codes}"})
+            else:
+                r425 = next(r for r in replies if r.code == "425")
+                if r425.t - LAT > t_conn + cfg["wft"] + EPS + 2 * LAT:
+                    viol.append({"key": "425-late", "msg": f"{where}: 425 at {r425.t - 1000:.4f}, the one data connection was made at "
+                                                           f"{t_conn - 1000:.4f}, wait_future_timeout {cfg['wft']}"})
+                r5 = await s.peer.cmd("PWD", wait=10)
+                if r5 in (None, "EOF") or r5.code != "257":
+                    viol.append({"key": "session-lost-after-425", "msg": f"{where}: PWD -> {r5}"})
+            s.peer.cut("fin")
         elif kind == "chatty":
             s = Session(net, 2121)
             await s.run([["connect"], ["login"]])
@@ -596,6 +633,12 @@ def gen_cases(tier, seed):
             for behind in ((0, 3, 8, 9, 40) if tier == "quick" else (0, 1, 2, 3, 5, 7, 8, 9, 12, 16, 17, 33, 40, 100, 400)):
                 cases.append({"kind": "single", "plan": {"kind": "hung_backend", "cfg": cfg, "behind": behind,
                                                          "cmds": ["PWD", "NOOP", "SYST", "MLST /f.bin", "CWD /dir"], "seed": seed}})
+        if cfg["wft"]:
+            for pair in (["LIST /dir", "LIST /dir"], ["RETR /f.bin", "LIST /dir"], ["MLSD /dir", "RETR /f.bin"], ["STOR /p.bin", "RETR /f.bin"],
+                         ["LIST /dir", "STOR /q.bin"]):
+                for gap in (0.05, 0.4):
+                    cases.append({"kind": "single", "plan": {"kind": "two_transfers_one_data", "cfg": cfg, "pair": pair, "gap": gap,
+                                                             "pcmd": ["epsv", "pasv"][len(cases) % 2], "seed": seed}})
         for second in ("RETR /f.bin", "LIST /dir", "STOR /other.bin", "MLSD /", "APPE /f.bin"):
             for pieces, every in ((6, 1.0), (3, 2.5)) if cfg["sock"] else ((6, 1.0), (2, 9.0)):
                 if cfg["idle"] and pieces * every + 1 > cfg["idle"]:
